@@ -483,7 +483,7 @@ Section Expander.
         | PfIfeq =>
           match ex (argn 0%nat), ex (argn 1%nat) with
           | Some x, Some y =>
-            option_map add_newline (if str_eqb (codes x) (codes y) && forallb is_ch x && forallb is_ch y
+            option_map add_newline (if mw_equal (codes x) (codes y) && forallb is_ch x && forallb is_ch y
                                     then ex (argn 2%nat) else
                                     if str_eqb (codes x) (codes y) then None else ex (argn 3%nat))
           | _, _ => None
@@ -508,7 +508,7 @@ Section Expander.
     | O => None
     | S f =>
       let ex := fun a => option_map strip_i (expand_recurse f stk true a) in
-      let same := fun (x y : enc) => str_eqb (codes x) (codes y) in
+      let same := fun (x y : enc) => mw_equal (codes x) (codes y) in
       match cases with
       | [] => match defval with
               | Some d => ex d
